@@ -521,15 +521,15 @@ def slice_arr(I, base, sl, lineno):
     lo = z3.simplify(lo)
     if z3.is_int_value(lo) and lo.as_long() == 0:
         return SArr(base.a, ln, base.elem, base.kind)
-    k = z3.Int(f"k!{next(I.fresh_counter)}")
+    k = z3.Int(f"k!{I.run_id}_{next(I.fresh_counter)}")
     na = z3.Lambda([k], z3.Select(base.a, k + lo))
     return SArr(na, ln, base.elem, base.kind)
 
 
 def fancy(I, base, idx, lineno):
     assumed(I, 'seqops')
-    k = z3.Int(f"k!{next(I.fresh_counter)}")
-    j = z3.Int(f"j!{next(I.fresh_counter)}")
+    k = z3.Int(f"k!{I.run_id}_{next(I.fresh_counter)}")
+    j = z3.Int(f"j!{I.run_id}_{next(I.fresh_counter)}")
     # every index in bounds (IndexError otherwise): obligation-free, becomes an assumption on the
     # normal path and a raise path otherwise
     inb = z3.ForAll([j], z3.Implies(z3.And(j >= 0, j < idx.n), z3.And(z3.Select(idx.a, j) >= 0, z3.Select(idx.a, j) < base.n)))
@@ -1001,10 +1001,13 @@ def np_empty(I, n, dtype=None, **kw):
     if isinstance(dtype, Opaque) and dtype.tag in ('uintp', 'uint'):
         elem = 'uint'
     sort = z3.RealSort() if elem == 'real' else z3.IntSort()
-    a = z3.Array(f"empty!{next(I.fresh_counter)}", z3.IntSort(), sort)
+    a = z3.Array(f"empty!{I.run_id}_{next(I.fresh_counter)}", z3.IntSort(), sort)
     if not (isinstance(n, int) and n >= 0):
         safety(I, 'np.empty length >= 0', nt >= 0)
     return SArr(a, nt, elem, 'ndarray')
+
+
+EIG = [z3.Function(f'eig{k}', *([z3.RealSort()] * 7)) for k in range(3)]
 
 
 def eigvalsh(I, m):
@@ -1019,7 +1022,10 @@ def eigvalsh(I, m):
                 I.oblige('call-pre', 'eigvalsh: matrix is symmetric', a[i][j].t == a[j][i].t)
     s11, s22, s33 = a[0][0].t, a[1][1].t, a[2][2].t
     s12, s13, s23 = a[0][1].t, a[0][2].t, a[1][2].t
-    w = [I.fresh(f"w{k}") for k in range(3)]
+    # eigvalsh is a function of the matrix: the three eigenvalues are uninterpreted functions of the six
+    # components, so repeated calls on the same tensor denote the same values
+    args6 = [realish(x) for x in (s11, s22, s33, s12, s13, s23)]
+    w = [EIG[k](*args6) for k in range(3)]
     I1 = s11 + s22 + s33
     I2 = s11 * s22 + s22 * s33 + s11 * s33 - s12 * s12 - s13 * s13 - s23 * s23
     I3 = s11 * s22 * s33 + 2 * s12 * s13 * s23 - s11 * s23 * s23 - s22 * s13 * s13 - s33 * s12 * s12
@@ -1153,7 +1159,7 @@ def b_len(I, x):
 
 def b_isinstance(I, x, cls):
     def one(c):
-        tag = c.tag if isinstance(c, Opaque) else c
+        tag = c.tag if isinstance(c, (Opaque, LibType)) else c
         if tag == 'pd.Series':
             return (isinstance(x, SV) and x.kind == 'series') or (isinstance(x, Rec) and x.kind == 'series')
         if tag == 'pd.DataFrame':
@@ -1328,6 +1334,39 @@ for _n in ('list', 'tuple', 'float', 'int', 'str', 'dict'):
     pass
 
 
+class LibType(Builtin):
+    """a library class that is both callable (constructor model) and usable in isinstance"""
+    def __init__(self, tag, fn):
+        super().__init__(tag, fn)
+        self.tag = tag
+
+
+def _index_token(index):
+    if isinstance(index, Opaque) and isinstance(index.tag, tuple) and index.tag[0] == 'index':
+        return index.tag[1]
+    if index is None:
+        return None
+    return ('other-index', id(index))
+
+
+def pd_series(I, data=None, index=None, name=None, dtype=None, **kw):
+    if isinstance(data, SV):
+        t = data.t
+        if dtype is not None and z3.is_int(t):
+            t = to_real(t)
+        tok = _index_token(index) if index is not None else data.index
+        return SV(t, data.pinf, data.ninf, data.guard, 'series', tok)
+    if isinstance(data, dict):
+        return Rec(data, 'series')
+    raise Unsupported(f"pd.Series of {type(data).__name__}")
+
+
+def pd_frame(I, data=None, index=None, **kw):
+    if isinstance(data, dict):
+        return Rec(data, 'frame', index=_index_token(index))
+    raise Unsupported(f"pd.DataFrame of {type(data).__name__}")
+
+
 def make_libs(I):
     I.used_assumptions = set()
     I.eig_records = []
@@ -1378,12 +1417,13 @@ def make_libs(I):
         'inf': SV(float('inf')), 'pi': SV(z3.Real('PI')), 'nan': Opaque('nan'),
         'float64': Opaque('float64'), 'double': Opaque('float64'), 'uintp': Opaque('uintp'), 'int64': Opaque('int64'),
         'bool_': Opaque('bool'), 'int8': Opaque('int8'),
-        'ndarray': Opaque('np.ndarray'), 'number': Opaque('np.number'),
+        'ndarray': LibType('np.ndarray', None), 'number': LibType('np.number', None),
         'linalg': linalg,
         'errstate': Builtin('errstate', lambda **k: Opaque('ctx')),
     })
     pd_ = LibNS('pd', {
-        'Series': Opaque('pd.Series'), 'DataFrame': Opaque('pd.DataFrame'),
+        'Series': LibType('pd.Series', lambda *a, **k: pd_series(I, *a, **k)),
+        'DataFrame': LibType('pd.DataFrame', lambda *a, **k: pd_frame(I, *a, **k)),
         'api': Opaque('pd.api'),
     })
     optimize = LibNS('optimize', {'newton': L(newton)})
